@@ -254,6 +254,11 @@ class ClassEval:
                 if fn.attr in ("sub", "split") and len(rest) > npos:
                     kw.setdefault("count" if fn.attr == "sub" else "maxsplit", rest[npos])
                 return self._apply_re(_re.compile(pat, fl), fn.attr, rest[:npos], kw)
+        if isinstance(fn, ast.Name) and fn.id in ("map", "filter") and len(node.args) >= 2 and not node.keywords and (local is None or fn.id not in local):
+            fobj = ev(node.args[0]) if not isinstance(node.args[0], ast.Name) or node.args[0].id in (local or {}) else None
+            if callable(fobj) and not isinstance(fobj, type):
+                seqs = [list(ev(a)) for a in node.args[1:]]
+                return list(map(fobj, *seqs)) if fn.id == "map" else [x for x in seqs[0] if fobj(x)]
         if isinstance(fn, ast.Name) and fn.id == "format" and len(node.args) == 2:
             return format(ev(node.args[0]), ev(node.args[1]))
         return NotImplemented
